@@ -1,12 +1,20 @@
 (* ModeProofs.v — the front-end model in Release mode either runs into undefined behaviour
    (a wrapped usize operation) or computes exactly what the Debug build computes. *)
 Require Import Base Syntax Front.
+Require Import gen.CounterFacts.
 Open Scope N_scope.
 
 Definition no_ub {A} (o : outcome A) : Prop := forall s, o <> UB s.
 
 Lemma uop_modes site v : no_ub (uop Release site v) -> uop Debug site v = uop Release site v.
-Proof. unfold uop. destruct (v <? usize_max); [reflexivity|]. intro H. exfalso. exact (H site eq_refl). Qed.
+Proof.
+  unfold uop. destruct (v <? usize_max); [reflexivity|].
+  destruct CounterFacts.struct_size_checked; [reflexivity|]. intro H. exfalso. exact (H site eq_refl).
+Qed.
+
+(* with checked struct size arithmetic the two modes agree unconditionally *)
+Lemma uop_modes_checked site v : CounterFacts.struct_size_checked = true -> uop Debug site v = uop Release site v.
+Proof. intro H. unfold uop. rewrite H. destruct (v <? usize_max); reflexivity. Qed.
 
 Lemma no_ub_bind_inv {A B} (o : outcome A) (f : A -> outcome B) :
   no_ub (obind o f) -> no_ub o /\ (forall a, o = Ok a -> no_ub (f a)).
